@@ -169,7 +169,12 @@ var NoEngineHook bool
 func (w *World) Domains() []tracing.NamedHookable {
 	var out []tracing.NamedHookable
 
-	for _, c := range w.Reg.(*registrar).comps {
+	own, isOwn := w.Reg.(*registrar)
+	if !isOwn {
+		return nil
+	}
+
+	for _, c := range own.comps {
 		if d, ok := c.(tracing.NamedHookable); ok && !strings.HasPrefix(c.Name(), "Req") && c.Name() != "MemStub" && c.Name() != "Driver" {
 			out = append(out, d)
 		}
